@@ -124,9 +124,42 @@ def run_seed(patch, props):
         shutil.rmtree(d, ignore_errors=True)
 
 
+def equiv():
+    """Apply each behaviour-preserving refactor and require every check to stay silent."""
+    from tools import mutant_specs
+    from rules import registry
+    bad = 0
+    for name, file, old, new, note in mutant_specs.EQUIV:
+        d = scratch_copy()
+        try:
+            p = os.path.join(d, file)
+            txt = open(p).read()
+            old_, new_ = old.encode().decode("unicode_escape"), new.encode().decode("unicode_escape")
+            if txt.count(old_) != 1:
+                print("%-34s DOES NOT APPLY (%d matches)" % (name, txt.count(old_)))
+                continue
+            open(p, "w").write(txt.replace(old_, new_))
+            fired = {}
+            for q in sorted(registry.QUICK):
+                c = subprocess.run([sys.executable, os.path.join(VERIF, "check.py"), q, "--src", d, "--json", "--no-evidence"],
+                                   stdout=subprocess.PIPE, stderr=subprocess.STDOUT, text=True)
+                for line in c.stdout.splitlines():
+                    if line.startswith("[{"):
+                        fired[q] = [o["key"] for o in json.loads(line)]
+                if c.returncode not in (0, 1):
+                    fired[q] = ["CHECKER-ERROR " + c.stdout[-200:]]
+            print("%-34s %s" % (name, "silent" if not fired else "FALSE ALARM %s" % {k: v[:2] for k, v in fired.items()}))
+            bad += bool(fired)
+        finally:
+            shutil.rmtree(d, ignore_errors=True)
+    print("false alarms:", bad)
+
+
 def main():
     if len(sys.argv) > 1 and sys.argv[1] == "make":
         return make()
+    if len(sys.argv) > 1 and sys.argv[1] == "equiv":
+        return equiv()
     if len(sys.argv) > 1 and sys.argv[1] == "seed":
         from rules import registry
         props = sys.argv[3:] or sorted(registry.QUICK)
